@@ -4,11 +4,13 @@ import (
 	"context"
 	"errors"
 	"fmt"
+	"net/url"
 	"sort"
 	"strings"
 	"time"
 
 	el "github.com/hashicorp/eventlogger"
+	"github.com/hashicorp/eventlogger/formatter_filters/cloudevents"
 	"github.com/hashicorp/eventlogger/simrt"
 )
 
@@ -76,6 +78,7 @@ type fanSend struct {
 	CancelMode  string // never, pre, task, deadline
 	Cause       bool   // the context is ended WITH A CAUSE (WithCancelCause / WithTimeoutCause): ctx.Err() stays Canceled / DeadlineExceeded
 	CancelAfter int    // yields the canceller waits / deadline in ns
+	AsEvent     bool   // the payload given to Send is itself an *Event of the sent type
 	// results
 	status         el.Status
 	err            error
@@ -472,6 +475,10 @@ func runFanout(rc *RunCtx, o fanOpts) {
 				s.CancelMode = "node"
 				s.NodeCancels = all[tp.Choose(len(all), "which-node")].id
 			}
+			if !o.small && !o.thresholds && tp.Choose(6, "event-as-payload") == 0 {
+				s.AsEvent = true
+				simrt.Probe("send.event-as-payload")
+			}
 			sendTypes[s.ID] = s.Type
 			mine = append(mine, s)
 			sends = append(sends, s)
@@ -515,7 +522,13 @@ func runFanout(rc *RunCtx, o fanOpts) {
 				simrt.Yield("client:before-send")
 				s.invokeStep = sim.Step
 				s.task = simrt.Current()
-				st, err := broker.Send(s.ctx, el.EventType(s.Type), &sendPayload{ID: s.ID})
+				var payload interface{} = &sendPayload{ID: s.ID}
+				if s.AsEvent {
+					// the payload is itself an *Event of the sent type, with a history of its own
+					payload = &el.Event{Type: el.EventType(s.Type), CreatedAt: time.Unix(1, 0), Payload: &sendPayload{ID: s.ID, InEvent: true},
+						Formatted: map[string][]byte{"json": []byte("{\"stale\":true}\n")}}
+				}
+				st, err := broker.Send(s.ctx, el.EventType(s.Type), payload)
 				s.status, s.err = st, err
 				s.ctxErrAtReturn = s.ctx.Err()
 				s.returnStep = sim.Step
@@ -550,6 +563,20 @@ func runFanout(rc *RunCtx, o fanOpts) {
 			broker.RegisterPipeline(el.Pipeline{PipelineID: "tz", EventType: "tz", NodeIDs: []el.NodeID{"tzr", "tzf", "tzs"}})
 		} else {
 			broker.RegisterPipeline(el.Pipeline{PipelineID: "tz", EventType: "tz", NodeIDs: []el.NodeID{"tzf", "tzs"}})
+		}
+		if tp.Choose(3, "tz-cloudevents") == 0 {
+			// a stock formatter on the nested type whose signer renews itself (Rotate from inside the signer)
+			src, _ := url.Parse("https://example.com/c03")
+			cef := &cloudevents.FormatterFilter{Source: src, SignEventTypes: []string{"tz"}}
+			var self cloudevents.Signer
+			self = func(ctx context.Context, b []byte) (string, error) {
+				simrt.Probe("ce.signer-rotated-itself")
+				cef.Rotate(self)
+				return "sig", nil
+			}
+			cef.Signer = self
+			broker.RegisterNode("tzce", cef)
+			broker.RegisterPipeline(el.Pipeline{PipelineID: "tzc", EventType: "tz", NodeIDs: []el.NodeID{"tzce", "tzs"}})
 		}
 		reent := map[string]bool{}
 		for _, p := range all {
